@@ -191,10 +191,15 @@ def r15_3(prog, rep):
         "y[level] notation influences predictors or is ignored for the response")
     if guard:
         body = [unparse(s) for s in guard[0].body]
-        obl(rep, ec, guard[0], "R15.3", len(body) == 1 and body[0].startswith("value = np.where(x == self.reference"),
-            "the y[level] branch builds a single indicator column from the comparison with the level", str(body))
+        from . import shared as _sh
+        ind = None
+        if len(guard[0].body) == 1 and isinstance(guard[0].body[0], ast.Assign) and unparse(guard[0].body[0].targets[0]) == "value":
+            ind = _sh.indicator_of(guard[0].body[0].value)
+        obl(rep, ec, guard[0], "R15.3", ind is not None and "self.reference" in ind,
+            "the y[level] branch builds a single 0/1 indicator column from the comparison with the level", str(body))
     lb = prog.fn("terms.terms.Term.levels")
-    ok = "component.reference is not None" in unparse(lb.node)
+    src = unparse(lb.node)
+    ok = "component.reference is not None" in src or "getattr(component, 'reference', None) is not None" in src
     obl(rep, lb, lb.node, "R15.3", ok, "a y[level] response reports no level list", nontrivial=False)
 
 
